@@ -166,7 +166,11 @@ class KernelSet:
         for name, args in found:
             ffibuilder.cdef(f"int32_t {name}({args});")
         ffibuilder.set_source("taco_kernel", taco_define_header + taco_type_header + source,
-                              extra_compile_args=["-Wno-unused-variable", "-Wno-unknown-pragmas"])
+                              extra_compile_args=["-Wno-unused-variable", "-Wno-unknown-pragmas",
+                                                  # the signed-overflow clause of C05: trap (SIGILL ->
+                                                  # crash journal) on any signed int overflow
+                                                  "-fsanitize=signed-integer-overflow",
+                                                  "-fsanitize-undefined-trap-on-error"])
         tmp = tempfile.mkdtemp(prefix="tsim-kc-")
         try:
             try:
